@@ -51,6 +51,16 @@ def cases(rng, tier):
                     yield Case("dcache-exh", lines, None, {"ty": ty, "ib": ib, "bb": bb, "assoc": assoc, "forced": True})
 
 
+def canon(s):
+    """Whole-program snapshots are compared on the ARCHITECTURAL fields only: which block a policy displaces (hence cache
+    contents, write-backs, counters, cycles) is not C03's business — transparency holds for every victim choice, and the
+    operation-level suites feed the model the victim the real policy chose."""
+    if s.startswith("pc="):
+        d = rvgen.parse_snap(s)
+        return "|".join(f"{k}={d.get(k)}" for k in ("pc", "regs", "out", "exit", "ins", "br", "pr"))
+    return s
+
+
 def nontrivial(c):
     if c.suite == "sim-dcache-prog":
         return "\n".join(c.lines[:2])
